@@ -26,12 +26,12 @@ Proof. induction p as [|y p IH]; simpl; [rewrite Z.eqb_refl; reflexivity | rewri
 
 (* ---------- one write through the facade ---------- *)
 Lemma facade_write_ok pf s w s1 tr r :
-  safe pf s -> write_no_hit w = true -> facade_write pf s w = (s1, tr, r) ->
+  safe pf s -> hit_ok pf w = true -> facade_write pf s w = (s1, tr, r) ->
   csteps c0 tr = inl c0 /\ safe pf s1.
 Proof.
   intros Hs Hw H. destruct s as [ini nl cf cc cn], w as [dry out]. unfold safe in *; simpl in *.
-  destruct out as [| | |hid|logged]; [| | |discriminate Hw|destruct logged];
-    destruct ini, dry, pf; try (destruct Hs as [Hs|Hs]; discriminate Hs);
+  destruct out as [| | |hid|logged]; [| | | |destruct logged];
+    destruct ini, dry, pf; try discriminate Hw; try (destruct Hs as [Hs|Hs]; discriminate Hs);
     destruct cn, cc as [[|m]|], cf as [[|n]|];
     unfold facade_write, ev_write, forge_log, ctrl_commit, ctrl_rollback, sql_commit, commit_acts, lock_frame, begin_frame, root in H; simpl in H;
     inversion H; subst; clear H; simpl; unfold cstep; simpl; rewrite ?Z.eqb_refl; simpl;
@@ -40,15 +40,15 @@ Qed.
 
 (* ---------- atomic bulk: the queue of the transaction object = the logs pending in the open transaction;
    after a cancellation the transaction is closed (rolled back by database/sql) and nothing more happens ---------- *)
-Lemma bulk_atomic_cancelled cont ws : forall stk s err,
-  cancelled s = true -> bulk_atomic_elems cont stk s err ws = (s, stk, [], err).
+Lemma bulk_atomic_cancelled pf cont ws : forall stk s err,
+  cancelled s = true -> bulk_atomic_elems pf cont stk s err ws = (s, stk, [], err).
 Proof.
   induction ws as [|w ws IH]; intros stk s err Hc; simpl; [reflexivity|]. rewrite Hc. simpl. apply IH; exact Hc.
 Qed.
 
-Lemma bulk_atomic_inv cont ws : forall s err q s2 stk2 tr err2,
-  forallb write_no_hit ws = true -> cancelled s = false ->
-  bulk_atomic_elems cont [(true, q); root] s err ws = (s2, stk2, tr, err2) ->
+Lemma bulk_atomic_inv pf cont ws : forall s err q s2 stk2 tr err2,
+  forallb (hit_ok pf) ws = true -> cancelled s = false ->
+  bulk_atomic_elems pf cont [(true, q); root] s err ws = (s2, stk2, tr, err2) ->
   (cancelled s2 = false /\ exists q2, stk2 = [(true, q2); root] /\
      csteps {| c_open := true; c_pending := q; c_ready := [] |} tr = inl {| c_open := true; c_pending := q2; c_ready := [] |})
   \/ (cancelled s2 = true /\ err2 = true /\ csteps {| c_open := true; c_pending := q; c_ready := [] |} tr = inl c0).
@@ -58,14 +58,14 @@ Proof.
   - apply andb_true_iff in Hn. destruct Hn as [Hw Hn]. rewrite Hc in H. simpl in H.
     destruct (err && negb cont).
     + eapply IH; eassumption.
-    + destruct w as [dry out]. unfold write_no_hit in Hw. simpl in *.
-      destruct out as [| | |hid|logged]; [| | |discriminate Hw|];
-        unfold ev_write, forge_log in H; simpl in H; rewrite Hc in H; simpl in H.
-      4: { (* cancelled inside the atomic transaction *)
+    + destruct w as [dry out]. unfold hit_ok, write_no_hit in Hw. simpl in *.
+      destruct out as [| | |hid|logged]; [| | |destruct pf; [discriminate Hw|]|];
+        unfold ev_write, forge_log in H; simpl in H; rewrite Hc in H; simpl in H; rewrite ?andb_false_r in H; simpl in H.
+      5: { (* cancelled inside the atomic transaction *)
         rewrite bulk_atomic_cancelled in H by (destruct logged; reflexivity).
         inversion H; subst; clear H. right. destruct logged; simpl; (split; [reflexivity|]); (split; [apply orb_true_r|]); reflexivity. }
-      all: match type of H with context [bulk_atomic_elems ?a ?b ?c ?d ?e] =>
-             destruct (bulk_atomic_elems a b c d e) as [[[s3 stk3] tr3] err3] eqn:E end;
+      all: match type of H with context [bulk_atomic_elems ?a0 ?a ?b ?c ?d ?e] =>
+             destruct (bulk_atomic_elems a0 a b c d e) as [[[s3 stk3] tr3] err3] eqn:E end;
            inversion H; subst; clear H;
            (eapply IH in E; [|exact Hn|try exact Hc; simpl; exact Hc]);
            (destruct E as [[Hc2 [q2 [Hq Hcs]]]|[Hc2 [He Hcs]]];
@@ -73,25 +73,25 @@ Proof.
             | right; split; [exact Hc2|]; split; [exact He | simpl; exact Hcs]]).
 Qed.
 
-Lemma bulk_atomic_keeps_init cont ws : forall stk s err s2 stk2 tr err2,
-  bulk_atomic_elems cont stk s err ws = (s2, stk2, tr, err2) -> initializing s2 = initializing s.
+Lemma bulk_atomic_keeps_init pf cont ws : forall stk s err s2 stk2 tr err2,
+  bulk_atomic_elems pf cont stk s err ws = (s2, stk2, tr, err2) -> initializing s2 = initializing s.
 Proof.
   induction ws as [|w ws IH]; intros stk s err s2 stk2 tr err2 H; simpl in H.
   - inversion H; reflexivity.
   - destruct (cancelled s || (err && negb cont)); [eapply IH; eassumption|].
-    destruct (ev_write stk true s {| w_dry := false; w_out := w_out w |}) as [[[s1 stk1] tr1] x] eqn:E1.
-    destruct (bulk_atomic_elems cont stk1 s1 (err || negb (res_ok x)) ws) as [[[s3 stk3] tr3] err3] eqn:E.
+    destruct (ev_write pf stk true s {| w_dry := false; w_out := w_out w |}) as [[[s1 stk1] tr1] x] eqn:E1.
+    destruct (bulk_atomic_elems pf cont stk1 s1 (err || negb (res_ok x)) ws) as [[[s3 stk3] tr3] err3] eqn:E.
     inversion H; subst; clear H.
     rewrite (IH _ _ _ _ _ _ _ E).
-    unfold ev_write, forge_log in E1. simpl in E1.
-    destruct (cancelled s); [inversion E1; subst; reflexivity|].
+    unfold ev_write, forge_log in E1. simpl in E1. clear E IH. destruct pf; simpl in E1;
+    (destruct (cancelled s); [inversion E1; subst; reflexivity|]);
     destruct (w_out w) as [| | |hid|logged]; simpl in E1; try destruct logged;
       repeat match type of E1 with context [let '(_, _) := ?x in _] => destruct x end;
       inversion E1; subst; reflexivity.
 Qed.
 
 Lemma bulk_plain_ok pf cont ws : forall s err s2 tr err2,
-  safe pf s -> forallb write_no_hit ws = true ->
+  safe pf s -> forallb (hit_ok pf) ws = true ->
   bulk_plain_elems pf cont s err ws = (s2, tr, err2) ->
   csteps c0 tr = inl c0 /\ safe pf s2.
 Proof.
@@ -102,7 +102,7 @@ Proof.
     destruct (facade_write pf s {| w_dry := false; w_out := w_out w |}) as [[s1 tr1] x] eqn:E1.
     destruct (bulk_plain_elems pf cont s1 (err || negb (res_ok x)) ws) as [[s3 tr3] err3] eqn:E.
     inversion H; subst; clear H.
-    assert (Hw' : write_no_hit {| w_dry := false; w_out := w_out w |} = true) by exact Hw.
+    assert (Hw' : hit_ok pf {| w_dry := false; w_out := w_out w |} = true) by exact Hw.
     destruct (facade_write_ok _ _ _ _ _ _ Hs Hw' E1) as [Hc Hs1].
     destruct (IH _ _ _ _ _ Hs1 Hn E) as [Hc2 Hs2].
     split; [|exact Hs2]. rewrite csteps_app, Hc. exact Hc2.
@@ -113,15 +113,18 @@ Proof.
   destruct s as [ini nl cf cc cn]. unfold sql_commit. simpl. destruct cc as [[|m]|], cf as [[|n]|]; simpl; intros H; inversion H; reflexivity.
 Qed.
 
-Lemma bulk_ok pf atomic cont s ws s2 tr :
-  safe pf s -> cancelled s = false -> forallb write_no_hit ws = true -> bulk pf atomic cont s ws = (s2, tr) ->
+Lemma bulk_ok pf atomic cont pre s ws s2 tr :
+  safe pf s -> cancelled s = false -> forallb (hit_ok pf) ws = true -> bulk pf atomic cont pre s ws = (s2, tr) ->
   csteps c0 tr = inl c0 /\ safe pf s2.
 Proof.
   intros Hs Hcn Hn H. unfold bulk in H. destruct atomic.
-  - destruct (bulk_atomic_elems cont [begin_frame; root] s false ws) as [[[s1 stk] tr1] err] eqn:E.
-    pose proof (bulk_atomic_keeps_init _ _ _ _ _ _ _ _ _ E) as Hi.
+  - destruct (if initializing s then pre else BPOk);
+      [|inversion H; subst; split; [reflexivity | exact Hs]
+       |inversion H; subst; split; [reflexivity | exact Hs]].
+    destruct (bulk_atomic_elems pf cont [begin_frame; root] s false ws) as [[[s1 stk] tr1] err] eqn:E.
+    pose proof (bulk_atomic_keeps_init _ _ _ _ _ _ _ _ _ _ E) as Hi.
     assert (Hs1 : safe pf s1) by (unfold safe in *; rewrite Hi; exact Hs).
-    destruct (bulk_atomic_inv _ _ _ _ _ _ _ _ _ Hn Hcn E) as [[Hc1 [q2 [Hq Hc]]]|[Hc1 [He Hc]]].
+    destruct (bulk_atomic_inv _ _ _ _ _ _ _ _ _ _ Hn Hcn E) as [[Hc1 [q2 [Hq Hc]]]|[Hc1 [He Hc]]].
     + destruct err.
       * inversion H; subst; clear H. split; [|exact Hs1].
         simpl. rewrite csteps_app, Hc. unfold ctrl_rollback. rewrite Hc1. reflexivity.
@@ -137,19 +140,19 @@ Proof.
 Qed.
 
 Lemma eop_ok pf s o s2 tr :
-  safe pf s -> eop_no_hit o = true -> eop_run pf s o = (s2, tr) -> csteps c0 tr = inl c0 /\ safe pf s2.
+  safe pf s -> eop_hit_ok pf o = true -> eop_run pf s o = (s2, tr) -> csteps c0 tr = inl c0 /\ safe pf s2.
 Proof.
-  intros Hs Hn H. destruct o as [w|a c ws|n|n|]; simpl in *.
+  intros Hs Hn H. destruct o as [w|a c pre ws|n|n|]; simpl in *.
   - destruct (facade_write pf (with_cancelled s false) w) as [[s1 tr1] r] eqn:E. inversion H; subst.
     eapply (facade_write_ok pf (with_cancelled s false) w); [exact Hs | exact Hn | exact E].
-  - apply (bulk_ok pf a c (with_cancelled s false) ws s2 tr Hs eq_refl Hn H).
+  - apply (bulk_ok pf a c pre (with_cancelled s false) ws s2 tr Hs eq_refl Hn H).
   - inversion H; subst. split; [reflexivity | exact Hs].
   - inversion H; subst. split; [reflexivity | exact Hs].
   - inversion H; subst. split; [reflexivity | exact Hs].
 Qed.
 
 Lemma run_ops_ok pf ops : forall s s2 tr,
-  safe pf s -> forallb eop_no_hit ops = true -> run_ops pf s ops = (s2, tr) -> csteps c0 tr = inl c0.
+  safe pf s -> forallb (eop_hit_ok pf) ops = true -> run_ops pf s ops = (s2, tr) -> csteps c0 tr = inl c0.
 Proof.
   induction ops as [|o ops IH]; intros s s2 tr Hs Hn H; simpl in *.
   - inversion H; reflexivity.
@@ -161,7 +164,7 @@ Proof.
 Qed.
 
 Theorem run_check_ok pf init n ops :
-  (pf = false \/ init = false) -> forallb eop_no_hit ops = true ->
+  (pf = false \/ init = false) -> forallb (eop_hit_ok pf) ops = true ->
   check (snd (run_ops pf (start init n) ops)) = VOk.
 Proof.
   intros Hs Hn. unfold check.
@@ -169,16 +172,34 @@ Proof.
   rewrite (run_ops_ok pf ops (start init n) s2 tr Hs Hn E). reflexivity.
 Qed.
 
-(* the model of the code: every history without idempotent replays, on initializing and in-use ledgers alike *)
-Theorem trace_check_ok init ops : forallb eop_no_hit ops = true -> check (trace_of init ops) = VOk.
-Proof. intros Hn. apply (run_check_ok false init 1 ops); [left; reflexivity | exact Hn]. Qed.
+Lemma hit_ok_false ops : forallb (eop_hit_ok false) ops = true.
+Proof.
+  induction ops as [|o ops IH]; simpl; [reflexivity|]. rewrite IH, andb_true_r.
+  destruct o as [w|a c pre ws|n|n|]; simpl; try reflexivity.
+  induction ws as [|w ws IHw]; simpl; [reflexivity | exact IHw].
+Qed.
 
-Theorem trace_from_check_ok init n ops : forallb eop_no_hit ops = true -> check (trace_from init n ops) = VOk.
-Proof. intros Hn. apply (run_check_ok false init n ops); [left; reflexivity | exact Hn]. Qed.
+(* the model of the code: EVERY history, idempotent replays included, on initializing and in-use ledgers alike *)
+Theorem trace_check_ok init ops : check (trace_of init ops) = VOk.
+Proof. apply (run_check_ok false init 1 ops); [left; reflexivity | apply hit_ok_false]. Qed.
 
-(* the historical variant was correct on in-use ledgers only *)
-Theorem trace_pre_fix_check_ok ops : forallb eop_no_hit ops = true -> check (trace_pre_fix false ops) = VOk.
+Theorem trace_from_check_ok init n ops : check (trace_from init n ops) = VOk.
+Proof. apply (run_check_ok false init n ops); [left; reflexivity | apply hit_ok_false]. Qed.
+
+(* the historical variant was correct on in-use ledgers and without replays only *)
+Theorem trace_pre_fix_check_ok ops : forallb (eop_hit_ok true) ops = true -> check (trace_pre_fix false ops) = VOk.
 Proof. intros Hn. apply (run_check_ok true false 1 ops); [right; reflexivity | exact Hn]. Qed.
+
+(* an idempotent replay through the facade publishes nothing, whatever the ledger state and the armed faults *)
+Definition is_publish (a : act) : bool := match a with Publish _ => true | _ => false end.
+Lemma replay_silent s d id s' tr :
+  eop_run false s (OWrite {| w_dry := d; w_out := WHit id |}) = (s', tr) -> existsb is_publish tr = false.
+Proof.
+  destruct s as [ini nl cf cc cn]. intros H.
+  destruct ini, d, cc as [[|m]|], cf as [[|n]|];
+    unfold eop_run, facade_write, ev_write, forge_log, ctrl_commit, ctrl_rollback, sql_commit, commit_acts, lock_frame, begin_frame, root in H;
+    simpl in H; inversion H; subst; reflexivity.
+Qed.
 
 (* ---------- what a passing judgement means, declaratively ----------
    [closed_after id pre]: in [pre] the log was appended inside a top-level transaction whose COMMIT succeeded:
